@@ -394,6 +394,13 @@ static void op_nlp(Json &out) {
         ob.fields = NLP_FIELDS;
         ob.counters = [&] { return snap(*W.evaluations); };
         run_nlp(out, te, ob, a);
+        // a wrapper "by reference" must keep referring to the caller's problem: it aliases P, and a later change of P is seen through it
+        out.b("ref_aliases", static_cast<const void *>(&W.problem) == static_cast<const void *>(&P));
+        P.name += "'";
+        P.C.lowerbound(0) = -12345;
+        bool seen = te.get_name() == P.name;
+        if (te.provides_get_box_C()) seen = seen && te.get_box_C().lowerbound(0) == -12345;
+        out.b("ref_sees_mutation", seen);
     } else if (kind == "functional") {
         NativeNLP P{n, m, mask, C, D, l1, name};
         alpaqa::FunctionalProblem<config_t> fp{C, D, l1, 0};
@@ -586,6 +593,7 @@ static void op_ocp(Json &out) {
             ob.fields = OCP_FIELDS;
             ob.counters = [&] { return snap(*W.evaluations); };
             run_ocp(out, te, ob, a);
+            out.b("ref_aliases", static_cast<const void *>(&W.problem) == static_cast<const void *>(&O));
         } else if (kind == "dl" || kind == "dlwrap") {
             ocp_dl<alpaqa::dl::DLControlProblem>(out, kind, path, ob, a);
         } else {
